@@ -370,6 +370,8 @@ def union_safe(t, tbl, em: "Emitter", seen=None) -> bool:
         hard = [m for m in ms if m[0] not in ("int", "float", "bool", "str", "none")]
         if len(hard) > 1 or any(m[0] == "any" for m in ms):
             return False
+        if hard and any(m[0] == "float" for m in ms):
+            return False        # an int offered at the float member is not class-exact: it falls to the other member's packer
         return all(union_safe(m, tbl, em, seen) for m in ms)
     if t[0] in ("data", "nt", "td"):
         if t[1] in seen:
